@@ -258,6 +258,11 @@ func checkC19(c C19Case, partName string) (vs []*Violation) {
 		for pos, i := range c.Order1 {
 			compare("trace logging on", i, pos, c19Send(ct, c.Reqs[i], strconv.Itoa(i), c.Via))
 		}
+		// and once more after tracing was switched off again with TraceLogger(nil)
+		harness.SetTraceOff(true)
+		for pos, i := range c.Order2 {
+			compare("trace logging switched off with TraceLogger(nil)", i, pos, c19Send(ct, c.Reqs[i], strconv.Itoa(i), c.Via))
+		}
 		harness.SetTrace(false)
 		if c.Repeat > 1 {
 			labels = append(labels, "long_history")
